@@ -111,23 +111,35 @@ def approx_or_eq(a, b):
 NATIVE['approx_or_eq'] = approx_or_eq
 
 
+_COMPILED = {}
+
+
+def _compile_clause(expr):
+    """(code of the clause with old(...) replaced by names, codes of the old(...) arguments): a function of the clause text only"""
+    hit = _COMPILED.get(expr)
+    if hit is None:
+        tree = ast.parse(expr.replace('range(0, 2**20)', 'range(0, CODE_BOUND)'), mode='eval')
+        rw = _OldRewriter()
+        tree = ast.fix_missing_locations(rw.visit(tree))
+        olds = [compile(ast.fix_missing_locations(ast.Expression(o)), '<old>', 'eval') for o in rw.olds]
+        hit = _COMPILED[expr] = (compile(tree, '<clause>', 'eval'), olds)
+    return hit
+
+
 def eval_clause(expr, env, old_env=None, extra=None):
-    expr = expr.replace('range(0, 2**20)', 'range(0, CODE_BOUND)')
-    tree = ast.parse(expr, mode='eval')
-    rw = _OldRewriter()
-    tree = ast.fix_missing_locations(rw.visit(tree))
+    code, olds = _compile_clause(expr)
     scope = dict(NATIVE)
     if extra:
         scope.update(extra)
     scope.update(env)
-    for i, o in enumerate(rw.olds):
+    for i, o in enumerate(olds):
         oscope = dict(NATIVE)
         if extra:
             oscope.update(extra)
         oscope.update(old_env or {})
         # bound variables of enclosing quantifiers are not visible here: old() must be closed or indexed outside
-        scope[f'__old{i}'] = eval(compile(ast.Expression(o), '<old>', 'eval'), oscope)
-    return eval(compile(tree, '<clause>', 'eval'), scope)
+        scope[f'__old{i}'] = eval(o, oscope)
+    return eval(code, scope)
 
 
 def load_contracts():
